@@ -505,6 +505,11 @@ CORPUS_MUTATIONS = [
     ("same name as a path and as a repository", lambda d: d.__setitem__("env", {"dependencies": {
         "paths": [{"name": "LIB", "path": "/tmp"}],
         "git": [{"name": "LIB", "path": "/tmp", "url": "https://example.invalid/lib.git"}]}})),
+    ("a step beside its twin with a trailing blank", lambda d: d["study"].append(
+        {"name": d["study"][0]["name"] + " ", "description": "d", "run": {"cmd": "echo twin"}})),
+    ("a step named '_source '", lambda d: d["study"][1].__setitem__("name", "_source ")),
+    ("a dependency on 'a' where only 'a ' is defined", lambda d: (
+        d["study"][0].__setitem__("name", "a "), d["study"][1]["run"].__setitem__("depends", ["a"]))),
     ("a date where a command belongs", lambda d: d["study"][0]["run"].__setitem__("cmd", __import__("datetime").date(2024, 1, 1))),
     ("a date as a parameter value", lambda d: d.__setitem__("global.parameters", {
         "DAY": {"values": [__import__("datetime").date(2024, 1, 1), __import__("datetime").date(2024, 1, 2)],
